@@ -62,6 +62,59 @@ def oracle_c06(case, k, block, mu):
     if k == 1 and tot != mu: return "k = 1: emitted weight %d is not the optimum %d" % (tot, mu)
     return None
 
+def oracle_c05_light(case, k, block):
+    """C05 without the GF(2) rank (graphs with > 10^4 cycles): count, caller's descriptors, simple cycles, returned value"""
+    n, WE, scale, tag = case
+    m = len(WE)
+    if line(block, "ret") is None: return "no result (exception or crash)"
+    if int(line(block, "foreign")[0]) != 0: return "emits edge descriptors that are not edges of the caller's graph"
+    cyc = cycles_of(block)
+    N = m - n + components(n, WE)
+    if len(cyc) != N: return "emits %d cycles, m-n+c = %d" % (len(cyc), N)
+    for c in cyc:
+        if any(e < 0 or e >= m for e in c): return "cycle names a non-edge"
+        if not is_simple_cycle(WE, c): return "emitted edge list %s is not one simple cycle" % c
+    if len({tuple(sorted(c)) for c in cyc}) != N: return "the same cycle is emitted twice"
+    ret, exact = int(line(block, "ret")[0]), line(block, "ret")[1] == "1"
+    tot = sum(WE[e][2] for c in cyc for e in c)
+    if not exact or ret != tot or int(line(block, "truew")[0]) != tot:
+        return "returned value %s != weight of the emitted cycles under the caller's weight map %d" % (line(block, "ret")[0], tot)
+    return None
+
+def many_dropped_cases(r, tier):
+    """complete graphs with more than 1024 (K52.., k = 2) and more than 16384 (K200) dropped edges: the ranges the TBB builder
+    reduces over become divisible whatever grainsize they carry; the exact phase only sees the sparse spanner.
+    -> id -> (case, k, light)"""
+    out = {}
+    for i, n in enumerate([52, 58] if tier == "quick" else [52, 55, 58, 64, 72]):
+        WE = [(a, b, r.randint(1, 20)) if r.random() < .5 else (b, a, r.randint(1, 20)) for a in range(n) for b in range(a + 1, n)]
+        r.shuffle(WE)
+        out["kd%d" % i] = ((n, WE, 0, "many-dropped-1k"), r.choice([2, 2, 3]), False)
+    n = 200
+    WE = [(a, b, r.randint(1, 9)) for a in range(n) for b in range(a + 1, n)]
+    r.shuffle(WE)
+    out["kdx"] = ((n, WE, 0, "many-dropped-16k"), 2, True)
+    return out
+
+def run_many_dropped(binary, r, tier, variants, extra_args, timeout=1800):
+    """-> (list of (id, why), number of runs, total dropped-edge cycles)"""
+    fam = many_dropped_cases(r, tier)
+    jobs = {}
+    for cid, (c, k, light) in fam.items():
+        for v in (variants if not light else variants[:1]):
+            jobs["%s-%s" % (cid, v)] = (c, [v, k] + list(extra_args(v)), k, light)
+    text = "".join(render_graph(j, "approx", "d", 0, a, c[0], c[1]) for j, (c, a, k, light) in jobs.items())
+    rc, out, err = run_harness(binary, text, timeout=timeout)
+    blocks = parse_blocks(out)
+    bad, cyc = [], 0
+    for j, (c, a, k, light) in jobs.items():
+        b = blocks.get(j, {"lines": []})
+        why = (oracle_c05_light if light else oracle_c05)(c, k, b)
+        cyc += len(cycles_of(b))
+        if why: bad.append((j, why, c, a))
+    if rc != 0 and not bad: bad.append(("crash", "harness crashed on the many-dropped-edges family: " + err[-300:], (0, [], 0, ""), []))
+    return bad, len(jobs), cyc
+
 AVARIANTS = ["signed", "fvs", "iso"]
 
 def approx_cases(r, tier, count, maxn, small_exhaustive, ks, variants=AVARIANTS):
